@@ -108,6 +108,9 @@ class C06(e1.E1Check):
     def l3_matches(self, exp, got, label):
         return refops.matches_sorted(exp, got)
 
+    def l3_bounds(self, tier):
+        return (3, 2, 10) if tier == "quick" else (3, 3, 60)
+
     def l3_signature(self, T, tvs, label):
         return {"has_option": refops._has_kind(T, ("opt",)), "strings": refops._has_kind(T, ("str", "bytes")),
                 "empty_array": len(tvs) == 0}
